@@ -220,6 +220,10 @@ func (m *monitor) CreateInformers() error {
 
 				for _, informer := range varyingInformers {
 					informer.withContext(ctx)
+					// The namespace has appeared after the monitor was started: its objects are new for the hook.
+					// Forget the preloaded objects to get them as Added events from the informer: they are
+					// delivered at once, or buffered until the Synchronization is done.
+					informer.resetCachedObjects()
 					if m.eventsEnabled {
 						informer.enableKubeEventCb()
 					}
